@@ -443,8 +443,9 @@ class Check:
             "notes": self.notes,
         }
         # a replay run re-executes recorded cases only: it must not replace the evidence of a real run
+        # ... and neither must a run against another checkout (VERIF_REPO, used to try seeded breakages)
         ev_name = "%s.replay.json" % self.prop if self.replay else "%s.json" % self.prop
-        ev_dir = os.path.join(CACHE, "run") if self.replay else os.path.join(VERIF, "evidence")
+        ev_dir = os.path.join(CACHE, "run") if (self.replay or alt_repo()) else os.path.join(VERIF, "evidence")
         with open(os.path.join(ev_dir, ev_name), "w") as fh:
             json.dump(ev, fh, indent=1, ensure_ascii=False)
         self.log("done rc=%d obligations=%d discharged=%d evaluations=%d distinct=%d known=%d" % (
